@@ -348,7 +348,7 @@ struct PipeWorld : World {
 			if (r > 0) {
 				if (ds.data.msg < 0) fail("decode-state", "recv reports a message but none is marked");
 				message m; struct iovec vec;
-				int g; { Sut s; g = mpt_message_get(&dq, ds.data.pos, (size_t) ds.data.msg, &m, &vec); }
+				int g; if (cxxq) { bool ok; { Sut s; ok = dq.current_message(m, &vec); } g = ok ? (m.clen ? 1 : 0) : -1; st.hit("probe:cxx_decode_queue_current_message"); } else { Sut s; g = mpt_message_get(&dq, ds.data.pos, (size_t) ds.data.msg, &m, &vec); }
 				if (g < 0) fail("decode-state", "message window (pos %zu, len %zd) not inside queue of %zu bytes", ds.data.pos, ds.data.msg, dq.len);
 				if (g == 1) st.hit("probe:message_in_two_fragments");
 				Bytes got((size_t) ds.data.msg);
